@@ -26,8 +26,10 @@ pub assume_specification[ <StringLitOrFormat as Clone>::clone ](x: &StringLitOrF
     ensures r == *x;
 
 // R5 (contract-only): the context is only threaded through `is_empty_status`.
+// #unless-take struct SemTypeContext
 #[verifier::external_body]
 pub struct SemTypeContext { _p: core::marker::PhantomData<()> }
+// #end
 
 // "format-free fragment" of C06: literals on which SubtypeCheck::is_subtype is plain equality.
 pub trait FlatLit {
